@@ -53,6 +53,7 @@ func init() {
 	Properties["C07"] = PropSpec{
 		Rules: []Rule{
 			FieldFed,
+			RefWalk,
 			PanicInventory(c07Entries, []DynEntry{
 				{Func: "(*SchemaValidator).Validate", DataArg: 1},
 				{Func: "(*ParamValidator).Validate", DataArg: 1},
